@@ -58,9 +58,9 @@ Theorem partition_no_overlap :
     Z.of_nat n <= start_of (Z.of_nat n) (Z.of_nat W) (workload (Z.of_nat n) (Z.of_nat W)) (Z.of_nat t1).
 Proof.
   intros n W t1 t2 HW Ht. cbv zeta. destruct (workload_facts n W HW) as [H0 H1].
-  unfold start_of, end_of. set (w := workload (Z.of_nat n) (Z.of_nat W)) in *.
-  destruct (Z_le_gt_dec (Z.of_nat n) (Z.of_nat t1 * w)); [right; assumption|left].
-  repeat split; nia.
+  set (w := workload (Z.of_nat n) (Z.of_nat W)) in *.
+  destruct (Z_le_gt_dec (Z.of_nat n) (start_of (Z.of_nat n) (Z.of_nat W) w (Z.of_nat t1))) as [L|G]; [right; exact L|left].
+  unfold start_of, end_of in *. repeat split; nia.
 Qed.
 Print Assumptions partition_no_overlap.
 
